@@ -339,7 +339,10 @@ impl World {
                 self.first[p].insert(i, true);
                 Ok(())
             }
-            Outcome::Err(_) => {
+            Outcome::Err(e) => {
+                if std::env::var("VERIF_C39_ERRS").is_ok() {
+                    eprintln!("[first-err] {} at peer {p}: {e}", Self::describe(&op));
+                }
                 self.labels.insert("first_processing_err");
                 self.first[p].insert(i, false);
                 Ok(())
@@ -556,7 +559,10 @@ impl World {
                         self.labels.insert("create_space");
                         self.publish(by, ops, true);
                     }
-                    Err(_) => {
+                    Err(e) => {
+                        if std::env::var("VERIF_C39_ERRS").is_ok() {
+                            eprintln!("[local-err] {step:?}: {e}");
+                        }
                         self.labels.insert("local_action_err");
                     }
                 }
@@ -573,7 +579,10 @@ impl World {
                         self.labels.insert("create_group");
                         self.publish(by, vec![op], true);
                     }
-                    Err(_) => {
+                    Err(e) => {
+                        if std::env::var("VERIF_C39_ERRS").is_ok() {
+                            eprintln!("[local-err] {step:?}: {e}");
+                        }
                         self.labels.insert("local_action_err");
                     }
                 }
@@ -606,7 +615,10 @@ impl World {
                         self.labels.insert("space_add");
                         self.publish(by, vec![a, b], true);
                     }
-                    Err(_) => {
+                    Err(e) => {
+                        if std::env::var("VERIF_C39_ERRS").is_ok() {
+                            eprintln!("[local-err] {step:?}: {e}");
+                        }
                         self.labels.insert("local_action_err");
                     }
                 }
@@ -632,7 +644,10 @@ impl World {
                         self.labels.insert("space_remove");
                         self.publish(by, vec![a, b], true);
                     }
-                    Err(_) => {
+                    Err(e) => {
+                        if std::env::var("VERIF_C39_ERRS").is_ok() {
+                            eprintln!("[local-err] {step:?}: {e}");
+                        }
                         self.labels.insert("local_action_err");
                     }
                 }
@@ -658,7 +673,10 @@ impl World {
                         self.labels.insert("group_add");
                         self.publish(by, vec![op], true);
                     }
-                    Err(_) => {
+                    Err(e) => {
+                        if std::env::var("VERIF_C39_ERRS").is_ok() {
+                            eprintln!("[local-err] {step:?}: {e}");
+                        }
                         self.labels.insert("local_action_err");
                     }
                 }
@@ -684,7 +702,10 @@ impl World {
                         self.labels.insert("group_remove");
                         self.publish(by, vec![op], true);
                     }
-                    Err(_) => {
+                    Err(e) => {
+                        if std::env::var("VERIF_C39_ERRS").is_ok() {
+                            eprintln!("[local-err] {step:?}: {e}");
+                        }
                         self.labels.insert("local_action_err");
                     }
                 }
@@ -709,7 +730,10 @@ impl World {
                         self.labels.insert("publish");
                         self.publish(by, vec![op], true);
                     }
-                    Err(_) => {
+                    Err(e) => {
+                        if std::env::var("VERIF_C39_ERRS").is_ok() {
+                            eprintln!("[local-err] {step:?}: {e}");
+                        }
                         self.labels.insert("local_action_err");
                     }
                 }
@@ -719,7 +743,10 @@ impl World {
                 let manager = self.peers[by].tp.manager.clone();
                 match self.rt.block_on(manager.key_bundle_message()) {
                     Ok(op) => self.publish(by, vec![op], false),
-                    Err(_) => {
+                    Err(e) => {
+                        if std::env::var("VERIF_C39_ERRS").is_ok() {
+                            eprintln!("[local-err] {step:?}: {e}");
+                        }
                         self.labels.insert("local_action_err");
                     }
                 }
@@ -741,7 +768,10 @@ impl World {
                         }
                         self.publish(by, ops, true);
                     }
-                    Err(_) => {
+                    Err(e) => {
+                        if std::env::var("VERIF_C39_ERRS").is_ok() {
+                            eprintln!("[local-err] {step:?}: {e}");
+                        }
                         self.labels.insert("local_action_err");
                     }
                 }
@@ -1466,8 +1496,8 @@ pub fn run(mut ctx: Ctx) -> ! {
          members and sub-groups, publish, key bundle, repair, partial causal deliveries, re-deliveries, syncs), final \
          flush and a final sweep re-processing every successfully processed message at every peer. Non-trivial: a \
          re-delivery with at least one other message processed by that peer in between.",
-        80,
-        2500,
+        300,
+        6000,
     )
     .min_nontrivial(0.5)
     .shrink_iters(60);
@@ -1478,8 +1508,8 @@ pub fn run(mut ctx: Ctx) -> ! {
         "fixed 3-peer world (group, space with sub-group, one application message) + 4..=8 forged messages per case \
          covering every SpacesArgs variant with generated field values, signed by a member or a stranger, processed \
          by a generated receiver inside catch_unwind; accepted ones are processed a second time.",
-        100,
-        5000,
+        500,
+        15000,
     )
     .min_nontrivial(0.5)
     .shrink_iters(60);
